@@ -121,7 +121,7 @@ fn inv(op: &Op, _ctx: &dyn Context, operands: &mut dyn CoordinateSet) -> usize {
 
             // The authalic latitude is a bit convoluted
             let denom = a * a * (1.0 - ((1.0 - es) / (2.0 * e)) * ((1.0 - e) / (1.0 + e)).ln());
-            let xi = (-sign) * (1.0 - rho * rho / denom);
+            let xi = (-sign) * (1.0 - rho * rho / denom).asin();
 
             let lon = lon_0 + (x - x_0).atan2(sign * (y - y_0));
             let lat = ellps.latitude_authalic_to_geographic(xi, &authalic);
